@@ -919,10 +919,14 @@ def _server(ctx, state):
                                                                  "VERIF_PROBE_ALL": 0 if ctx.quick else 1},
                               tags=state["tags"], timeout=900)
         if rc != 0:
+            if _crashed(ctx, "server", out, "HTTPServer runtime with maxConnections changed through reload"):
+                return None
             ctx.inconclusive("C17 server harness failed:\n" + out[-3000:])
         return tp
 
     tp = once(300, "a")
+    if tp is None:
+        return          # the server process died of the semaphore's panic: reported
     ev_all = ctx.read_ndjson(tp)
     ev = [e for e in ev_all if e.get("ev") != "note"]
     nfail = sum(1 for e in ev_all if e.get("ev") == "note" and e.get("k") == "dialfail")
@@ -954,6 +958,8 @@ def _server(ctx, state):
     if len(bad) > nhard:
         ctx.log("server level: %d offending events depend on the settle-time assumption; repeating with 5x settle time" % (len(bad) - nhard))
         tp2 = once(1500, "b")
+        if tp2 is None:
+            return
         _n, _e, sigs2 = _validate(ctx, state, "server-settled", tp2, "HTTPServer runtime, cap change assumed applied 1.5 s after the reload was consumed")
         if not sigs2:
             ctx.notes.append("server level: %d offending event(s) under the 300 ms settle assumption did not reproduce with 1.5 s: not reported" % (len(bad) - nhard))
